@@ -93,6 +93,15 @@ def bound(v, is_float, what):
     return v
 
 
+def assigned(st):
+    """(dotted target, value) of a plain or annotated single assignment, else (None, None)"""
+    if isinstance(st, ast.Assign) and len(st.targets) == 1:
+        return G.P.dotted(st.targets[0]), st.value
+    if isinstance(st, ast.AnnAssign) and st.value is not None:
+        return G.P.dotted(st.target), st.value
+    return None, None
+
+
 def lint(n: int) -> str:
     return str(n) if n >= 0 else f"({n})"
 
@@ -157,9 +166,10 @@ def unit_VarTypes():
     dec = G.P.find_function(tree, "Dynamic", "decode")
     dyn_keys = None
     for st in ast.walk(dec):
-        if isinstance(st, ast.Assign) and isinstance(st.value, ast.Dict) and G.P.dotted(st.targets[0]) == "format_codes":
+        tgt, val = assigned(st)
+        if tgt == "format_codes" and isinstance(val, ast.Dict):
             dyn_keys = []
-            for k, v in zip(st.value.keys, st.value.values):
+            for k, v in zip(val.keys, val.values):
                 kd, vd = G.P.dotted(k), G.P.dotted(v)
                 if kd is None or vd is None or not kd.endswith(".format_code") or kd[: -len(".format_code")] != vd:
                     raise G.P.Untranslatable(f"Dynamic.decode format_codes entry {ast.unparse(k)}: {ast.unparse(v)}")
@@ -176,8 +186,9 @@ def unit_VarTypes():
     match_order = None
     mt = G.P.find_function(tree, "Dynamic", "_match_type")
     for st in ast.walk(mt):
-        if isinstance(st, ast.Assign) and G.P.dotted(st.targets[0]) == "var_types" and isinstance(st.value, ast.List):
-            match_order = name_list(st.value, "_match_type order")
+        tgt, val = assigned(st)
+        if tgt == "var_types" and isinstance(val, ast.List):
+            match_order = name_list(val, "_match_type order")
     if match_order is None:
         raise G.P.Untranslatable("Dynamic._match_type: default order not found")
 
@@ -253,12 +264,13 @@ def unit_ItemTypes():
     fv_int = G.P.find_function(tree, "Item", "_from_value_int")
     uns = sig = fb_int = None
     for st in ast.walk(fv_int):
-        if isinstance(st, ast.Assign) and G.P.dotted(st.targets[0]) == "types" and isinstance(st.value, ast.IfExp):
-            t = st.value.test
+        tgt, val = assigned(st)
+        if tgt == "types" and isinstance(val, ast.IfExp):
+            t = val.test
             if not (isinstance(t, ast.Compare) and isinstance(t.ops[0], ast.GtE) and G.P.dotted(t.left) == "value"
                     and isinstance(t.comparators[0], ast.Constant) and t.comparators[0].value == 0):
                 raise G.P.Untranslatable(f"_from_value_int: sign test {ast.unparse(t)}")
-            uns, sig = name_list(st.value.body, "unsigned list"), name_list(st.value.orelse, "signed list")
+            uns, sig = name_list(val.body, "unsigned list"), name_list(val.orelse, "signed list")
     last = fv_int.body[-1]
     if isinstance(last, ast.Return) and isinstance(last.value, ast.Call) and isinstance(last.value.func, ast.Subscript):
         fb_int = ast.literal_eval(last.value.func.slice)
@@ -288,7 +300,7 @@ def unit_ItemTypes():
         if not (isinstance(t, ast.Call) and G.P.dotted(t.func) == "isinstance" and G.P.dotted(t.args[0]) == "value"):
             raise G.P.Untranslatable(f"from_value: test {ast.unparse(t)}")
         pytype = G.P.dotted(t.args[1])
-        rhs = node.body[0].value if len(node.body) == 1 and isinstance(node.body[0], ast.Assign) else None
+        rhs = assigned(node.body[0])[1] if len(node.body) == 1 else None
         if rhs is None:
             raise G.P.Untranslatable("from_value: branch body")
         if isinstance(rhs, ast.Name):
